@@ -155,8 +155,16 @@ fn lin_case2(m: &LinearModel, mut tags: Vec<String>, profile: u8) -> (Case, Opti
             Recompiled::Rejected(stage, msg) => {
                 tags.push(format!("reparse-rejected-{}", stage));
                 if in_range {
+                    let odd_inf = m.domain().values().any(|d| match d.get_type() {
+                        VariableType::NonNegativeReal(a, b) => a.is_infinite() || *b == f64::NEG_INFINITY,
+                        VariableType::Real(a, b) => *a == f64::INFINITY || *b == f64::NEG_INFINITY,
+                        _ => false });
                     if matches!(m.optimization_type(), OptimizationType::Satisfy) && stage == "parse" {
                         c.sig = Some("solve-rendered-with-expression".into());
+                    } else if m.constraints().is_empty() && stage == "parse" {
+                        c.sig = Some("empty-constraint-section-rejected".into());
+                    } else if odd_inf && stage == "parse" {
+                        c.sig = Some("infinite-bound-spelled-inf".into());
                     }
                     c.impl_violation = Some(format!("rendering of a compiled linear model is rejected at {}: {}  <=  {}", stage, msg, text.replace('\n', " | ")));
                 } else {
